@@ -245,6 +245,5 @@ class LazyList:
 
     @lazylist
     def reversed(self):
-        self.generated += list(itertools.tee(self.raw_object)[-1])
-        for item in self.generated[::-1]:
+        for item in self.listify()[::-1]:
             yield item
